@@ -1114,3 +1114,30 @@ def sp_owned(I, st, args, kwargs):
 @spec('xxh64hex')
 def sp_xxh64hex(I, st, args, kwargs):
     return VStr(_c10_syms()['XXH'](args[0].t))
+
+
+@spec('faithful_col')
+def sp_faithful_col(I, st, args, kwargs):
+    """faithful_col(col, df, comb): two rows of `col` are equal exactly when the rows of frame df agree on every column named in comb
+    (a hidden definition: obligations that need its meaning `unfold` it; invariants only carry it along)."""
+    from . import sym as _sym
+    from .sym import sort_of
+    col, df, comb = args
+    d = _c10_syms()
+    if 'FAITH' not in d:
+        P = _sym.PSTR
+        AP = z3.ArraySort(z3.IntSort(), P)
+        FD = sort_of(('opaque', 'FrameData'))
+        F = z3.Function('faithful_col', AP, I_, FD, AP, I_, z3.BoolSort())
+        A, N, D = z3.Const('fc_A', AP), z3.Const('fc_N', AP), z3.Const('fc_D', FD)
+        n, k, i, j, c = (z3.Int('fc_' + x) for x in 'nkijc')
+        COL = d['COL']
+        body = z3.ForAll([i, j], z3.Implies(z3.And(i >= 0, i < n, j >= 0, j < n), (A[i] == A[j]) == z3.ForAll(
+            [c], z3.Implies(z3.And(c >= 0, c < k), COL(D, N[c])[i] == COL(D, N[c])[j]))))
+        axiom('faithful_col.def', z3.ForAll([A, n, D, N, k], F(A, n, D, N, k) == body, patterns=[F(A, n, D, N, k)]), 'faithful_col', opaque=True)
+        d['FAITH'] = F
+    if isinstance(col, VSeq):
+        arr = col.arr
+    else:
+        arr = col.fields['values'].arr
+    return VBool(d['FAITH'](arr, df.fields['nrows'].t, df.fields['data'].t, comb.arr, comb.length))
